@@ -66,7 +66,7 @@ def _fragments(opts, variant):
     if opts.get("U"):
         fr.append(sum((["-U", str(v)] for v in CUT2[ucount]), []))
     if opts.get("nextseq"):
-        fr.append(["--nextseq-trim", "20"])
+        fr.append(["--nextseq-trim", variant.get("nextseq", "20")])
     if opts.get("q"):
         fr.append(["-q", variant.get("q", "10")])
     if opts.get("Q"):
@@ -82,7 +82,7 @@ def _fragments(opts, variant):
     if opts.get("polya"):
         fr.append(["--poly-a"])
     if opts.get("l"):
-        fr.append(["-l", "30"])
+        fr.append(["-l", variant.get("l", "30")])
     if opts.get("L"):
         fr.append(["-L", "40"])
     if opts.get("trimn"):
@@ -320,7 +320,7 @@ def _expected(opts, variant, mate, paired):
         for v in CUT2[ucount]:
             e.append((0, ("UnconditionalCutter",), ("length", v)))
     if opts.get("nextseq"):
-        e.append((1, ("NextseqQualityTrimmer",), ("cutoff", 20)))
+        e.append((1, ("NextseqQualityTrimmer",), ("cutoff", int(variant.get("nextseq", "20")))))     # a cut-off of 0 is a setting, not "absent"
     q = None
     if mate == 1 and opts.get("q"):
         q = variant.get("q", "10")
@@ -345,9 +345,9 @@ def _expected(opts, variant, mate, paired):
         e.append((4, ("PolyATrimmer",), ("revcomp", mate == 2)))
     length = None
     if mate == 1 and opts.get("l"):
-        length = 30
+        length = int(variant.get("l", "30"))
     if mate == 2:
-        length = 40 if opts.get("L") else (30 if opts.get("l") else None)
+        length = 40 if opts.get("L") else (int(variant.get("l", "30")) if opts.get("l") else None)
     if length is not None:
         e.append((5, ("Shortener",), ("length", length)))
     if opts.get("trimn"):
@@ -561,14 +561,14 @@ def _add(paired, variant, nbits, pieces, live="three", tails="all", timeout=600,
 _add(False, {}, 6, 2, live="all", tag="-u x1")
 _add(False, {"cuts": 2, "q": "5,10", "xy": "x"}, 6, 1, tag="-u x2, -q 5,10, -x only")
 _add(False, {"adapter": "revcomp", "xy": "y"}, 6, 1, tag="--revcomp, -y only")
-_add(False, {"adapter": "front"}, 6, 1, live="none", tag="-g")
+_add(False, {"adapter": "front", "nextseq": "0", "l": "0"}, 6, 1, live="none", tag="-g, --nextseq-trim 0, -l 0")
 # paired-end: all 49152 subsets in the base variant; the variants concern trimming options only and are combined with
 # three name-option combinations (none / all with -x -y / all with --rename)
 _add(True, {}, 10, 8, tag="-u/-U x1")
 _add(True, {"cuts": 2, "q": "5,10", "Q": "3,15"}, 10, 2, tails="three", live="none", tag="-u/-U x2, -q 5,10 -Q 3,15")
 _add(True, {"adapter": "revcomp"}, 10, 2, tails="three", live="none", tag="--revcomp")
 _add(True, {"adapter": "pair", "xy": "x"}, 10, 2, tails="three", live="none", tag="--pair-adapters, -x only")
-_add(True, {"Q": "0", "xy": "y"}, 10, 2, tails="three", live="none", tag="-Q 0, -y only")
+_add(True, {"Q": "0", "xy": "y", "nextseq": "0", "l": "0"}, 10, 2, tails="three", live="none", tag="-Q 0, -y only, --nextseq-trim 0, -l 0")
 _add(True, {}, 10, 16, live="all", timeout=3000, thorough_only=True, tag="-u/-U x1, every pipeline re-run")
 _add(True, {"cuts": 2, "q": "5,10", "Q": "3,15", "adapter": "revcomp"}, 10, 16, live="none", timeout=3000, thorough_only=True, tag="-u/-U x2, -q 5,10 -Q 3,15, --revcomp, all name options")
 
@@ -582,7 +582,7 @@ def describe():
         "bounds": {"options": "single-end: all subsets of {-u, --nextseq-trim, -q, -a, --poly-a, -l} x {--trim-n, --length-tag, --strip-suffix, -x/-y, --rename, -z} (3072 admissible subsets: --rename excludes -x/-y), "
                               "every one of their pipelines re-run under CrossHair; paired-end: all subsets of {-u, -U, --nextseq-trim, -q, -Q, -a, -A, --poly-a, -l, -L} x the same name options (49152 subsets) natively, "
                               "of which per trimming-option subset three pipelines (no name option / all with -x -y / all with --rename) are re-run under CrossHair (quick; thorough re-runs all 49152)",
-                   "variants": "each with all trimming-option subsets: -u/-U given twice (order given) with -q 5,10 -Q 3,15; -g instead of -a; --revcomp; --pair-adapters; -Q 0; -x alone; -y alone "
+                   "variants": "each with all trimming-option subsets: -u/-U given twice (order given) with -q 5,10 -Q 3,15; -g instead of -a; --revcomp; --pair-adapters; -Q 0; --nextseq-trim 0 and -l 0 (boundary values that are settings, not absence); -x alone; -y alone "
                                "(single-end variants x all 48 name-option combinations, paired variants x three of them)",
                    "argv": "three permutations per subset (as listed, reversed with the file names first, interleaved with the file names in the middle); a repeated -u keeps its relative order",
                    "reads": "one abstract read (pair) per run; payload symbolic"},
